@@ -677,6 +677,9 @@ func TestCheck(t *testing.T) {
 		for i := 0; i < env.N(3, 3); i++ {
 			cases = append(cases, Case{Kind: "frame", Frame: genFrame(r.Fork())})
 		}
+		for i := 0; i < env.N(1, 3); i++ {
+			cases = append(cases, Case{Kind: "frame", Frame: genFrameSweep(r.Fork(), thorough)})
+		}
 		for i := 0; i < env.N(6, 6); i++ {
 			cases = append(cases, Case{Kind: "member", Member: genMember(r.Fork(), i)})
 		}
